@@ -82,8 +82,10 @@ class Scenario:
             st.op("add", "bob", "bobpw", "true")
             st.op("add", "carol", "carolpw", "false")
             aux = {"small": b"totp: QUJDREVG\n", "nolf": b"u2f: " + b"x" * 5000,
+                   # one line longer than any line-oriented reader's limit (64 KiB), followed by more lines
+                   "longline": b"u2f: " + b"k" * 70000 + b"\ntotp: after-the-long-line\nlast: 1\n",
                    "big": b"".join(b"aux%05d: %s\n" % (i, b"y" * 90) for i in range(2000)),
-                   "binary": bytes(range(256)) * 3, "none": b""}[kind if kind in ("small", "nolf", "big", "binary") else "none"]
+                   "binary": bytes(range(256)) * 3, "none": b""}[kind if kind in ("small", "nolf", "big", "binary", "longline") else "none"]
             if aux:
                 with open(os.path.join(st.base, "carol.user"), "ab") as f:
                     f.write(aux)
@@ -209,7 +211,7 @@ def gen_cases(prop, seed, tier, want_faults=False, want_bad_names=False, fault_o
     rng = random.Random(seed)
     random.seed(seed)
     cases = []
-    kinds = ["plain", "small", "nolf", "binary", "tmp-residue", "no-tmp", "empty"]
+    kinds = ["plain", "small", "nolf", "binary", "longline", "tmp-residue", "no-tmp", "empty"]
     if tier == "thorough":
         kinds.append("big")
     scens = {k: Scenario(rng, k) for k in kinds}
@@ -224,6 +226,7 @@ def gen_cases(prop, seed, tier, want_faults=False, want_bad_names=False, fault_o
             "small": [("update", "carol", "pw2"), ("update", "bob", "pw3"), ("setadmin", "carol", True), ("remove", "carol")],
             "nolf": [("update", "carol", "pw2"), ("setadmin", "carol", True)],
             "binary": [("update", "carol", "pw2")],
+            "longline": [("update", "carol", "pw2"), ("auth", "carol", "carolpw")],
             "big": [("update", "carol", "pw2")],
             "tmp-residue": [("add", "dave", "davepw", False), ("update", "alice", "pw9"), ("check",), ("list",), ("listfull",),
                             ("auth", "alice", "alicepw"), ("exists", "alice")],
